@@ -10,6 +10,9 @@
      * the parsed operands (register full name / immediate value / memory operand with base, offset, write-back / other),
      * the ISA entry the (suffix-stripping) look-up selected, or None: per-operand `destination` flags and the operation.
    Output: the returned dict in insertion order (register -> None | operand state), or the exception raised.
+   Modelled as of /repo 25d1345: a register that is source and destination takes the state of the written operand
+   (0bfe782); the base of a post-indexed operand is reported unchanged in the full dict ("op_post") and bumped in the
+   only_postindexed dict; post-index by a register is an unknown change (b9d426a).
    No proofs in this file. *)
 From Coq Require Import ZArith List Bool String.
 From OV Require Import Model.Num Model.Pressure Model.Deps.
@@ -98,7 +101,7 @@ Fixpoint exec_stmts (st : opstate) (l : list stmt) : res opstate :=
 
 (* ---------------------------------------------------------------- get_reg_changes *)
 Inductive ioff := OffNone | OffImm (v : option Z) | OffOther.        (* offset: None / ImmediateOperand(value) / identifier *)
-Inductive ipost := PostFalse | PostImm (v : Z) | PostOther.          (* post_indexed: False / {'value': v} / a dict without 'value' *)
+Inductive ipost := PostFalse | PostImm (v : Z) | PostOther.          (* post_indexed: False / {'value': v} / a dict without 'value' (post-index by a register) *)
 Inductive iop :=
 | IReg (nm : string)                                                  (* RegisterOperand, prefix + name *)
 | IImm (v : option Z)                                                 (* ImmediateOperand, its value *)
